@@ -102,6 +102,17 @@ pub fn c02_scenarios() -> Vec<Scenario> {
         Cfg { s_target_window: Some(100_000), ..Cfg::default() },
         vec![StreamSpec::new(m(&[70_000]), m(&[5]))],
     ));
+    // pushed stream against a client window smaller than the server's own (asymmetric windows)
+    v.push(mk(
+        "push-client-window-7",
+        Cfg { c_stream_window: Some(7), ..Cfg::default() },
+        vec![StreamSpec { push: Some(m(&[30])), ..StreamSpec::new(m(&[]), m(&[20])) }],
+    ));
+    v.push(mk(
+        "server-window-7-only",
+        Cfg { s_stream_window: Some(7), ..Cfg::default() },
+        vec![StreamSpec::new(m(&[30]), m(&[20]))],
+    ));
     v
 }
 
